@@ -208,13 +208,60 @@ def r6_whole_domain(ctx):
             detail = 'arms inserting into the counted set: %s' % ins
             if ins and all(ins.values()) and len(ins) >= 2 and sb in mc.reachable(mc.succ(sb)):
                 ok = True
+        if not ok:
+            # the counting written as a filter over the routes: `routes.iter().filter(|(guard, _)| match guard { Any => true, Some(g) => g.contains(m) })`
+            for x in ctx.fb.bodies_of_item('pavexc', mc.nroot):
+                if x is mc or x.locals[0] != 'bool':
+                    continue
+                used = [t for _, t in mc.calls() if (callee(t) or '').endswith('Iterator::filter') and any(x.id in a or '{closure' in a for a in t['aty'][1:])]
+                for sb, st in enum_switches(x):
+                    if not strip_generics(st['enum']).endswith('MethodGuard') or not used:
+                        continue
+                    e = switch_edges(st)
+                    any_true = False
+                    bb_, seen_ = e.get('Any'), set()
+                    while bb_ is not None and bb_ not in seen_:
+                        seen_.add(bb_)
+                        if any(s_['lhs'] == {'l': 0} and s_['rv']['k'] == 'use' and s_['rv']['op'].get('int') == '1' for s_ in x.stmts(bb_) if 'lhs' in s_):
+                            any_true = True
+                        t_ = x.term(bb_)
+                        bb_ = t_['t'] if t_ and t_['k'] in ('goto', 'drop') else None
+                    some_blocks = x.reachable(e.get('Some'), avoid=[e.get('Any')]) if e.get('Some') is not None else set()
+                    some_contains = any(x.term(y) and x.term(y)['k'] == 'call' and (callee(x.term(y)) or '').endswith('::contains') and x.term(y)['dest'] == {'l': 0}
+                                        for y in some_blocks)
+                    detail = 'filter over the routes: ANY counts unconditionally (%s), Some(g) counts iff g.contains(method) (%s)' % (any_true, some_contains)
+                    ok = any_true and some_contains
         ctx.ob('C08.R6', 'detect_method_conflicts|every-guard-kind-counted', ok, mc.loc(), detail)
         # the methods that are examined: not only the constant list of standard methods, also the ones the guards themselves name
         defs = Defs(mc)
         NEXT = 'core::iter::traits::iterator::Iterator::next'
         cont = [(bb, t) for bb, t in mc.calls() if (callee(t) or '').endswith('BTreeSet::contains') or (callee(t) or '').endswith('IndexSet::contains')]
+        # .. or inside a closure of the function: the tested method is then a captured variable, followed back into the function
+        captured = []
+        for x in ctx.fb.bodies_of_item('pavexc', mc.nroot):
+            if x is mc:
+                continue
+            dx = Defs(x)
+            for bb, t in x.calls():
+                if not ((callee(t) or '').endswith('BTreeSet::contains') or (callee(t) or '').endswith('IndexSet::contains')) or len(t['args']) < 2:
+                    continue
+                q = op_place(t['args'][1])
+                xs, _ = backward_slice(x, q['l'], dx) if q else ([], set())
+                fields = set()
+                for _, _, n in xs:
+                    if 'rv' in n:
+                        from ..flow import rv_operands as _rvo
+                        ops_, pls_ = _rvo(n['rv'])
+                        for pp in pls_ + [op_place(o) for o in ops_ if op_place(o)]:
+                            if pp['l'] == 1:
+                                fields |= {int(e[2:]) for e in pp.get('p', []) if e.startswith('f:') and e[2:].isdigit()}
+                for cb, j, st in mc.all_assigns():
+                    if st['rv']['k'] == 'agg' and st['rv'].get('ak') == 'closure' and st['rv'].get('def') == x.id:
+                        for k in fields:
+                            if k < len(st['rv']['ops']) and op_place(st['rv']['ops'][k]):
+                                captured.append((cb, op_place(st['rv']['ops'][k])))
         okm, how = False, 'no `guard.contains(method)` test found'
-        for bb, t in cont:
+        for bb, t in cont + [(cb, {'args': [None, {'cp': pl_}]}) for cb, pl_ in captured]:
             pl = op_place(t['args'][1]) if len(t['args']) > 1 else None
             if pl is None:
                 continue
@@ -250,7 +297,7 @@ def r6_whole_domain(ctx):
                             reads_guard = True
                 okm = okm or reads_guard
                 how = 'the methods tested with contains() come from a list that %s the methods named by the guards' % ('includes' if reads_guard else 'does NOT include')
-        ctx.ob('C08.R6', 'detect_method_conflicts|custom-methods-examined', okm, mc.loc(cont[0][0]) if cont else mc.loc(), how)
+        ctx.ob('C08.R6', 'detect_method_conflicts|custom-methods-examined', okm, mc.loc(cont[0][0]) if cont else (mc.loc(captured[0][0]) if captured else mc.loc()), how)
 
 
 # For every roster checker: the calls whose result decides whether an item of the checked domain is skipped (a branch inside the
@@ -352,6 +399,9 @@ REVIEWED_SKIP_PREDICATES = {
     },
     'analyses::user_components::router::PathRouter::detect_method_conflicts': {
         'indexmap::set::IndexSet::len',
+        # a route counts for a method iff its guard is ANY or names the method (the rule itself; visible as a predicate when the counting is
+        # written as `routes.iter().filter(|(guard, _)| ..)`)
+        'alloc::collections::btree::set::BTreeSet::contains',
     },
     'analyses::user_components::router::PathRouter::detect_path_conflicts': {
         'core::cmp::PartialEq::eq',
